@@ -151,12 +151,54 @@ pub struct TerminalEnum {
     pub variants: Vec<TerminalVariant>,
 }
 
+//@[ C06 C13 ghost: the declared payload type of a terminal = the type text of the first variant with that name
+pub open spec fn term_type(vs: Seq<TerminalVariant>, name: DollarlessTerminalName, i: int) -> Option<Seq<char>>
+    decreases vs.len() - i
+{
+    if i < 0 || i >= vs.len() { None } else if vs[i].dollarless_name == name { Some(vs[i].type_@) } else { term_type(vs, name, i + 1) }
+}
+pub proof fn lemma_term_type_none(vs: Seq<TerminalVariant>, name: DollarlessTerminalName, i: int)
+    requires 0 <= i, forall|j: int| i <= j < vs.len() ==> (#[trigger] vs[j]).dollarless_name != name
+    ensures term_type(vs, name, i) is None
+    decreases vs.len() - i
+{ if i < vs.len() { lemma_term_type_none(vs, name, i + 1); } }
+pub proof fn lemma_term_type_first(vs: Seq<TerminalVariant>, name: DollarlessTerminalName, i: int, k: int)
+    requires 0 <= i <= k < vs.len(), vs[k].dollarless_name == name, forall|j: int| i <= j < k ==> (#[trigger] vs[j]).dollarless_name != name
+    ensures term_type(vs, name, i) == Some(vs[k].type_@)
+    decreases k - i
+{ if i < k { lemma_term_type_first(vs, name, i + 1, k); } }
+//@]
+
 impl TerminalEnum {
-    pub fn get_type(&self, variant_name: &DollarlessTerminalName) -> Option<&str> {
-        self.variants
+    pub fn get_type(&self, variant_name: &DollarlessTerminalName) -> /*@[*/(r: /*@]*/Option<&str>/*@[*/)/*@]*/
+        //@[ C06 C13 TerminalEnum::get_type: the declared payload type of the terminal, looked up by name
+        ensures (match r { Some(t) => Some(t@), None => None }) == term_type(self.variants@, *variant_name, 0),
+        //@]
+    {
+        /*@[*/let __vx_f = /*@]*/self.variants
             .iter()
-            .find(|variant| variant.dollarless_name == *variant_name)
-            .map(|variant| -> &str { &variant.type_ })
+            .find(|variant/*@[*/: &&TerminalVariant/*@]*/| /*@[*/-> (o: bool) ensures o == (variant.dollarless_name == *variant_name) { /*@]*/variant.dollarless_name == *variant_name/*@[*/ }/*@]*/)/*@[*/;
+        proof {
+            let vs = self.variants@;
+            let rem = vs.as_ref();
+            assert(rem.len() == vs.len());
+            assert(forall|j: int| 0 <= j < rem.len() ==> *(#[trigger] rem[j]) == vs[j]);
+            match __vx_f {
+                None => {
+                    assert forall|j: int| 0 <= j < vs.len() implies (#[trigger] vs[j]).dollarless_name != *variant_name by { assert(*rem[j] == vs[j]); }
+                    lemma_term_type_none(vs, *variant_name, 0);
+                }
+                Some(v) => {
+                    let k = choose|k: int| 0 <= k < rem.len() && rem[k] == v && rem[k].dollarless_name == *variant_name
+                        && forall|j: int| 0 <= j < k ==> (#[trigger] rem[j]).dollarless_name != *variant_name;
+                    assert forall|j: int| 0 <= j < k implies (#[trigger] vs[j]).dollarless_name != *variant_name by { assert(*rem[j] == vs[j]); }
+                    assert(*rem[k] == vs[k]);
+                    lemma_term_type_first(vs, *variant_name, 0, k);
+                }
+            }
+        }
+        __vx_f/*@]*/
+            .map(|variant/*@[*/: &TerminalVariant/*@]*/| -> /*@[*/(o: /*@]*/&str/*@[*/) ensures o@ == variant.type_@/*@]*/ { &variant.type_ })
     }
 }
 
